@@ -111,7 +111,7 @@ def run_case(case: dict) -> Result:
             # with attribution on, a comment of the model's own indentation class separated from it by exactly one line break is the model's
             # leading / trailing comment by the documented rule: left outside, it is not the known outer-trivia case
             claimable = False
-            if claim and has_comment:
+            if claim and has_comment and hasattr(model, 'claim_leading_comment'):   # only models that can own surrounding comments
                 indented = type(order.tokens[a]).__name__ == 'Indent'
                 for side, rng in (('before', range(a - 1, -1, -1)), ('after', range(b + 1, len(order.tokens)))):
                     breaks = 0
